@@ -7,7 +7,7 @@ git apply --check SEEDED/patch.diff || { echo "PATCH-DOES-NOT-APPLY"; exit 1; }
 # unpatched: demo must pass
 bash SEEDED/build.sh >/tmp/seed-unpatched.log 2>&1; u=$?
 git apply SEEDED/patch.diff
-(cmake -G Ninja -B _build >/dev/null 2>&1; cmake --build _build >/tmp/seed-build.log 2>&1) || { echo "BUILD-FAILS"; git checkout -q -- lib util; exit 1; }
+(cmake -G Ninja -B _build >/dev/null 2>&1; cmake --build _build >/tmp/seed-build.log 2>&1 && cmake --build _build --target check >>/tmp/seed-build.log 2>&1; cmake --build _build >/dev/null 2>&1) || { echo "BUILD-FAILS"; git checkout -q -- lib util; exit 1; }
 t=$(ctest --test-dir _build -j8 2>&1 | grep -c "100% tests passed")
 bash SEEDED/build.sh >/tmp/seed-patched.log 2>&1; p=$?
 git checkout -q -- lib util
